@@ -24,9 +24,9 @@ def behaviours(ctx, n, depth):
     out, seen = [], set()
     seed = ctx.seed * 7 + 3
     for attempt in range(6):
-        cfg = ('SPECIFICATION Spec\nCONSTANTS\n  MaxDepth = %d\nINVARIANT AtDepth\nCHECK_DEADLOCK FALSE\n' % depth) if attempt % 2 == 0 else \
-              ('SPECIFICATION SpecFocused\nCONSTANTS\n  MaxDepth = %d\nINVARIANT AtDepthRich\nCHECK_DEADLOCK FALSE\n' % depth)
-        res = tlc.must(tlc.run('Session', cfg, ctx.scratch, simulate='num=%d' % (max(300, 2 * n) if attempt % 2 == 0 else max(3000, 30 * n)), extra_args=['-depth', str(depth + 1), '-seed', str(seed + attempt)],
+        which = ['Spec', 'SpecFocused', 'SpecRefit'][attempt % 3]
+        cfg = 'SPECIFICATION %s\nCONSTANTS\n  MaxDepth = %d\nINVARIANT %s\nCHECK_DEADLOCK FALSE\n' % (which, depth, 'AtDepth' if which == 'Spec' else 'AtDepthRich')
+        res = tlc.must(tlc.run('Session', cfg, ctx.scratch, simulate='num=%d' % (max(300, 2 * n) if attempt % 3 == 0 else max(3000, 30 * n)), extra_args=['-depth', str(depth + 1), '-seed', str(seed + attempt)],
                                workers=1, timeout=600), 'Session.simulate')
         ctx.add_tlc(res, 'Session.simulate[%d]' % attempt)
         for p in res['prints']:
@@ -35,13 +35,16 @@ def behaviours(ctx, n, depth):
                 if key not in seen:
                     seen.add(key)
                     out.append(p[1])
-        if attempt >= 1 and len(out) >= 2 * n:
+        if attempt >= 2 and len(out) >= 2 * n:
             break
     # prefer behaviours that exercise objects: at least one Fit and one Edit or Call
     score = lambda b: -(sum(1 for a in b if a['a'] == 'Fit') * 3 + sum(1 for a in b if a['a'] in ('Edit', 'Recompute')) * 2 + sum(1 for a in b if a['a'] == 'Call'))
-    heavy = sorted([b for b in out if sum(1 for a in b if a['a'] == 'Fit') >= 2], key=score)
-    broad = sorted([b for b in out if b not in heavy[:n // 2]], key=lambda b: -len({a.get('f', '') for a in b}))
-    return heavy[:n // 2] + broad[:n - n // 2]
+    refit = [b for b in out if all(a['o'] in (0, 1) or a['a'] == 'Edit' for a in b) and sum(1 for a in b if a['a'] == 'Fit') >= 2 and len({a['s'] for a in b if a['a'] == 'Fit'}) == 1]
+    refit.sort(key=lambda b: -len({(a['a'], a.get('f', '')) for a in b}))
+    heavy = sorted([b for b in out if sum(1 for a in b if a['a'] == 'Fit') >= 2 and b not in refit[:n // 3]], key=score)
+    chosen = refit[:n // 3] + heavy[:n // 3]
+    broad = sorted([b for b in out if b not in chosen], key=lambda b: -len({a.get('f', '') for a in b}))
+    return chosen + broad[:n - len(chosen)]
 
 
 def _replay(b):
